@@ -1,4 +1,5 @@
 import PhyloModel.Arena.Query
+import PhyloModel.Arena.QueryMore
 import PhyloModel.Newick.Writer
 import PhyloModel.Split.Model
 import PhyloModel.Matrix.Store
@@ -207,6 +208,8 @@ def encQR {α : Type} (f : α → String) : AR.QR α → String
   | .panic => "panic"
 
 def encBool (b : Bool) : String := if b then "1" else "0"
+/-- a rational always as `num/den` (lowest terms, `den > 0`; integers as `n/1`) -/
+def encRatFull (r : Rat) : String := s!"{r.num}/{r.den}"
 
 def decPairs : List Nat → Option (List (Nat × Nat))
   | [] => some []
@@ -217,7 +220,15 @@ def arQuery (a : AR.Arena) : List String → Option String
   | ["root"] => some (encQR toString (AR.root a))
   | ["leaves"] => some ("ok " ++ encNats (AR.leaves a))
   | ["n_leaves"] => some s!"ok {AR.nLeaves a}"
-  | ["size"] => some s!"ok {a.size}"
+  | ["size"] => some s!"ok {AR.sizeOf a}"
+  | ["leaf_names"] => some ("ok " ++ " ".intercalate ((AR.leafNames a).map encOptStr))
+  | ["unique_tips"] => some (encQR encBool (AR.hasUniqueTipNames a))
+  | ["sackin_yule"] => some (encQR encRatFull (AR.sackinYule a))
+  | ["sackin_pda_sq"] => some (encQR encRatFull (AR.sackinPdaSq a))
+  | ["colless_pda_sq"] => some (encQR encRatFull (AR.collessPdaSq a))
+  | ["node", x] => x.toNat?.map fun x =>
+      encQR (fun (r : Bool × Bool × Nat) => s!"{encBool r.1} {encBool r.2.1} {r.2.2}") (AR.nodeInfo a x)
+  | ["child_edge", p, c] => do let p ← p.toNat?; let c ← c.toNat?; pure (encQR encOptInt (AR.childEdgeQ a p c))
   | ["subtree", x] => x.toNat?.map fun x => encQR encNats (AR.subtree a x)
   | ["preorder", x] => x.toNat?.map fun x => encQR encNats (AR.subtree a x)
   | ["descendants", x] => x.toNat?.map fun x => encQR encNats (AR.descendants a x)
